@@ -1,4 +1,5 @@
 //! Kani harnesses (real code, path dependencies on /repo). `//@` lines are read by bin/vcheck.
+#![recursion_limit = "512"]
 #![allow(unused, clippy::all)]
 #![cfg_attr(kani, feature(core_io_borrowed_buf, read_buf))]
 extern crate alloc;
@@ -9,6 +10,8 @@ pub mod stubs;
 pub mod txm;
 #[cfg(kani)]
 mod c03;
+#[cfg(kani)]
+mod c03i;
 #[cfg(kani)]
 mod c04;
 #[cfg(kani)]
